@@ -105,7 +105,8 @@ VidFresh(st, b, vid) == Enabled(st, b) => (vid # "" /\ vid # "null" /\ vid \noti
 
 \* ---- bucket operations ----
 CreateBucket(st, cfg, op) ==
-  IF cfg.single # "" THEN Err(st, "NotImplemented")
+  IF "invalid" \in DOMAIN op THEN Err(st, "InvalidBucketName")      \* (C17 decides which names are valid)
+  ELSE IF cfg.single # "" THEN Err(st, "NotImplemented")
   ELSE IF HasB(st, op.b) THEN Err(st, "BucketAlreadyExists")
   ELSE Ok([st EXCEPT !.bk = Upd(@, op.b, NewBucket)], [st |-> 200, code |-> ""])
 
